@@ -37,6 +37,23 @@ USER_MODELS = {
 }
 
 
+MODEL_TEXT = {
+    "u_linear": "linear(x, intercept, slope) = intercept + slope*x", "u_quadratic": "quadratic(x, a, c) = a*x**2 + c",
+    "u_polynomial": "polynomial(x, c0, c1, c2) = c0 + c1*x + c2*x**2",
+    "u_exponential": "exponential(x, decay, amplitude) = amplitude*exp(-decay*x)",
+    "u_gaussian": "gaussian(x, mean, std, norm) = norm/sqrt(2 pi std^2) exp(-(x-mean)^2/(2 std^2))",
+    "u_model4": "model4(x, a, b, c, d) = a + b*x + c*x**2 + d*x**3",
+    "u_model5": "model5(x, a, b, c, d, e) = a + b*x + c*x**2 + d*x**3 + e*x**4", "userquad": "user_quad(x, a, b) = a*x**2 + b*x",
+}
+
+
+def describe_model(case):
+    m = case["model"]
+    if m in MODEL_TEXT:
+        return "user-defined {} {}".format("lambda named" if case.get("as_lambda") else "function", MODEL_TEXT[m])
+    return "pre-set model " + m
+
+
 def make_user_model(name, as_lambda=False):
     """the Python callable handed to q.fit (works on arrays and on QExPy values)"""
     q = _q()
